@@ -19,6 +19,7 @@ STEP-BOUND        (feedforward) the committed row is the last one not later than
                   min(time + step, T[m]) or the next row
 """
 import ast
+import re
 
 from ..flow import (canon_text, path_to, reaching, Closure, assigned_names, blocks_of,
                     walk_no_nested_funcs)
@@ -306,6 +307,9 @@ def sched_epochs(ctx, which=(FB, FF)):
             lows = [x for x in ops if x[0] in ('GtE', 'Gt')]
             ups = [x for x in ops if x[0] in ('LtE', 'Lt')]
             if len(lows) == 1 and len(ups) == 1:
+                ctx.need(_is_some_end(M, lows[0][1]) and _is_some_end(M, ups[0][1]),
+                         '%s: clip bounds `%s` / `%s` not recognised as ends of a time axis'
+                         % (f.name, lows[0][1][:50], ups[0][1][:50]))
                 start_ok = _is_start(M, lows[0][1])
                 end_ok = _is_end(M, ups[0][1])
                 okc = lows[0][0] == 'GtE' and start_ok and end_ok
@@ -328,14 +332,42 @@ def sched_epochs(ctx, which=(FB, FF)):
                why='epoch list is modified inside the main loop')
 
 
+_FIRST = ('.index[0]', '.index.min()', '.index.values[0]')
+_LAST = ('.index[-1]', '.index.max()', '.index.values[-1]')
+
+
+def _strip_num(txt):
+    """float(x) / np.max(x) / np.min(x) spellings of the ends of a sorted index"""
+    for _ in range(3):
+        m = re.fullmatch(r'(?:float|np\.float64)\((.*)\)', txt)
+        if m:
+            txt = m.group(1)
+            continue
+        m = re.fullmatch(r'(?:np\.)?(max|min)\((\w+)\.index\)', txt)
+        if m:
+            txt = '%s.index.%s()' % (m.group(2), m.group(1))
+        break
+    return txt
+
+
 def _is_start(M, txt):
+    txt = _strip_num(txt)
     if M.kind == 'feedback':
         return txt.endswith('.name') and txt.split('.')[0] in M.f.params
-    return txt.endswith('.index[0]') and txt.split('.')[0] in M.f.params
+    return txt.endswith(_FIRST) and txt.split('.')[0] in M.f.params
 
 
 def _is_end(M, txt):
-    return txt.endswith('.index[-1]') and txt.split('.')[0] in M.f.params
+    txt = _strip_num(txt)
+    return txt.endswith(_LAST) and txt.split('.')[0] in M.f.params
+
+
+def _is_some_end(M, txt):
+    """a recognisable end of a time axis (so that a WRONG end can be told from an unrecognised
+    expression, which is not judged)"""
+    txt = _strip_num(txt)
+    return (txt.endswith('.name') or txt.endswith(_FIRST) or txt.endswith(_LAST) or
+            re.search(r'\.index\[-?\d+\]$', txt) is not None) and txt.split('.')[0] in M.f.params
 
 
 # -------------------------------------------------------------- SCHED-MCURSOR
@@ -1013,7 +1045,11 @@ def sched_span(ctx, which=(FB, FF)):
                 lhs.func.attr == 'get_time' and isinstance(lhs.func.value, ast.Name) and \
                 lhs.func.value.id in integ
             rt = M.clo_pre.text(rhs, M.loop)
-            okr = rt in ('increments.index[-1]', 'increments.index[len(increments) - 1]')
+            okr = _is_end(M, rt) and _strip_num(rt).startswith('increments.')
+            # another end of the data is a finding; an unrecognised expression is not judged
+            other = _is_some_end(M, rt)
+            ctx.need(okl and (okr or other), 'feedback: loop condition `%s` (right side `%s`) not '
+                     'recognised' % (norm_text(t)[:60], rt[:60]))
             ctx.ob('SCHED-SPAN', okl and okr and op is ast.Lt, None,
                    'feedback: loop runs while integrator time < last increment time', f=f, node=t,
                    key='fb-span',
